@@ -274,17 +274,78 @@ def rule_u(ck, F):
     else: ck.violation('U', 'U : decode_next_picture : gather call', where_of(b), 'gather call / order: %s' % [[show(x) for x in a] for _, a in ga])
 
 
+def rule_uc(ck, F):
+    ck.rule('UC', 'decode_next_picture, not-coded macroblock: rejected with UncodedIFrameBlocks in an I picture; in a P picture and in a disposable P picture '
+                  'it becomes an Inter macroblock ("a disposable picture is decoded like a predicted picture") - decided by running the arm for each picture type code')
+    b = F.body(CLO); T = Table(F, CLO, paths=False, cast_kinds=True); N = Norm(T); g = T.g
+    mbv = {v['name']: v for v in F.adts['h263_rs::types::Macroblock']['variants']}
+    unc_arm = None
+    for bb in sorted(g.reach):
+        t = g.blocks[bb]['term']
+        if t['t'] != 'switch': continue
+        e = N.n(T.ex(t['on']))
+        if e[0] == 'f' and e[1] == 'discr' and show(e[2]).startswith('decode_macroblock(') and show(e[2]).endswith('.as0.0'):
+            for val, to in t['arms']:
+                if int(val) == int(mbv['Uncoded']['discr']): unc_arm = to
+            if unc_arm is None: unc_arm = t['otherwise']
+    if unc_arm is None:
+        ck.violation('UC', 'UC : decode_next_picture : macroblock match', where_of(b), 'no match on the decoded macroblock with an Uncoded arm'); return
+    pf = [f['name'] for f in F.adts['h263_rs::types::Picture']['variants'][0]['fields']]
+    want_place = 'as_header(next_decoded_picture).%d' % pf.index('picture_type')
+    variants = [(v['name'], int(v['discr'])) for v in F.adts['h263_rs::types::PictureTypeCode']['variants']]
+    def agg_of(bb):
+        for s_ in g.blocks[bb]['stmts']:
+            if s_['s'] == 'assign' and s_['rv']['r'] == 'agg':
+                k = s_['rv']['kind']
+                if k.get('vname') == 'UncodedIFrameBlocks': return 'Err(UncodedIFrameBlocks)'
+                if k.get('path') == 'types::MacroblockType': return k.get('vname')
+                if str(k.get('path', '')).endswith('error::Error'): return 'Err(%s)' % k.get('vname')
+        return None
+    outcome = {}
+    for vn, dv in variants:
+        env = {}; bb = unc_arm; res = None
+        for _ in range(40):
+            a = agg_of(bb)
+            if a is not None: res = a; break
+            for s_ in g.blocks[bb]['stmts']:
+                if s_['s'] != 'assign' or s_['lhs'].get('proj'): continue
+                l = s_['lhs']['l']; rv = s_['rv']; env.pop(l, None)
+                if rv['r'] == 'use' and rv['a'].get('o') == 'const' and rv['a'].get('bits') is not None:
+                    try: env[l] = int(rv['a']['bits'])
+                    except (TypeError, ValueError): pass
+                elif rv['r'] == 'use' and rv['a'].get('o') in ('copy', 'move') and not rv['a']['p'].get('proj') and rv['a']['p']['l'] in env: env[l] = env[rv['a']['p']['l']]
+                elif rv['r'] == 'discr' and show(N.n(T.ex_rv(rv))) == 'discr(%s)' % want_place: env[l] = dv
+                elif rv['r'] == 'un' and rv.get('op') == 'Not' and rv['a'].get('o') in ('copy', 'move') and not rv['a']['p'].get('proj') and rv['a']['p']['l'] in env: env[l] = 1 - env[rv['a']['p']['l']]
+            t = g.blocks[bb]['term']
+            if t['t'] == 'goto': bb = t['to']; continue
+            if t['t'] == 'switch':
+                on = t['on']
+                if on.get('o') in ('copy', 'move') and not on['p'].get('proj') and on['p']['l'] in env: v = env[on['p']['l']]
+                else: res = 'a decision on %s' % show(N.n(T.ex(on))); break
+                bb = {int(x): y for x, y in t['arms']}.get(v, t['otherwise']); continue
+            if t['t'] in ('drop', 'assert') and t.get('to') is not None: bb = t['to']; continue
+            if t['t'] == 'call' and t.get('to') is not None and F.callee_name(t).split('#')[0].endswith('::as_header'):
+                env.pop(t['dest']['l'], None); bb = t['to']; continue
+            res = 'a %s terminator%s' % (t['t'], ' (%s)' % F.callee_name(t) if t['t'] == 'call' else ''); break
+        outcome[vn] = res
+    # (the other type codes - PB, B, EI, EP, reserved - are outside what the properties speak about and are not constrained)
+    bad = {vn: r for vn, r in outcome.items() if vn in ('IFrame', 'PFrame', 'DisposablePFrame') and r != ('Err(UncodedIFrameBlocks)' if vn == 'IFrame' else 'Inter')}
+    if bad: ck.violation('UC', 'UC : decode_next_picture : not-coded macroblock by picture type', where_of(b, unc_arm), 'a not-coded macroblock must be rejected (UncodedIFrameBlocks) in an I picture '
+                         'and be an Inter macroblock in a P and in a disposable P picture; the arm gives %s' % bad)
+    else: ck.ok('UC', 'not-coded macroblock: Err(UncodedIFrameBlocks) for IFrame, MacroblockType::Inter for PFrame and DisposablePFrame (all: %s)' % outcome, where_of(b, unc_arm))
+
+
 def run(ck, F, tier):
     ck.explanation = ('C03 quantifies over all predicted pictures and all reference pictures; end-to-end pixel equality is NOT decided statically. Decided are the structural '
                       'conditions of its mechanism list, each necessary: S edge clamp in read_sample; L lerp and the half-sample split (folded over all vectors); B the three '
                       'interpolation forms of gather_block with their selecting conditions, sample geometry and cropping, and the fast path with the guard that makes it equal '
                       'to the per-sample path; G the six gather_block call sites (vector k, block offsets, chroma vector = average_sum_of_mvs of the four, planes paired); '
                       'N no-reference => error; U not-coded / early-end handling and gather-before-IDCT order; and, re-run on this tree: vector reconstruction, chroma '
-                      'rounding, candidate table and median (C12 A, B, D, E, F) and the residual-add form of all IDCT arms (C10 C).')
+                      'rounding, candidate table, median and the call-site wiring of the vector machinery (C12 A, B, D, E, F, M, W) and the residual-add form of all IDCT arms (C10 C).')
     ck.assumptions += ['end-to-end equality of decoded P pictures with the H.263 reconstruction is NOT decided', 'candidate geometry beyond the per-index table of C12 D is not decided']
-    rule_s(ck, F); rule_l(ck, F); rule_b(ck, F); rule_g(ck, F); rule_u(ck, F)
+    rule_s(ck, F); rule_l(ck, F); rule_b(ck, F); rule_g(ck, F); rule_u(ck, F); rule_uc(ck, F)
     s12 = Scoped(ck, 'C12.')
-    for fn in ('a_wrap', 'b_chroma', 'd_candidates', 'e_median', 'f_zero_neighbours', 'g_mv_decode'):
+    for fn in ('a_wrap', 'b_chroma', 'd_candidates', 'e_median', 'f_zero_neighbours', 'g_mv_decode', 'w_wiring'):
         getattr(c12, fn)(s12, F)
     s10 = Scoped(ck, 'C10.')
     c10.rule_c(s10, F)
